@@ -20,4 +20,6 @@ def build(tier):
     from . import miner_ext, miner_formulas
     O += miner_ext.build_for(tier)
     O += miner_formulas.build_qa(tier)
+    from . import miner_activate
+    O += miner_activate.build_for('C10', tier)
     return O
